@@ -180,12 +180,14 @@ def check_index(c):
         return
     form, vals = w["form"], [red(v, k) for v in w["vals"]][:len(pos)]
     vals += [0] * (len(pos) - len(vals))
+    # list/tuple/int values are also given unreduced (v + 2^k, v - 2^k): a vector over Z/2^k stores them reduced
+    lift = (lambda j, v: v + (1 << k) * (1 + j % 3) if (j + len(a)) % 2 else v - (1 << k)) if k else (lambda j, v: v)
     if kind == "int":
-        V = vals[0] if form != "Bits" or not k else Bits(vals[0], k)
+        V = lift(idx, vals[0]) if form != "Bits" or not k else Bits(vals[0], k)
     elif form == "list":
-        V = list(vals)
+        V = [lift(j, v) for j, v in enumerate(vals)]
     elif form == "tuple":
-        V = tuple(vals)
+        V = tuple(lift(j, v) for j, v in enumerate(vals))
     elif form == "Poly":
         V = Poly(list(vals), k)
     elif form == "bytes":
